@@ -76,6 +76,28 @@ fn stringcell(text: &str) -> i32 {
     }
 }
 
+/// Calendar index: a zone covering [lo, hi] must be a candidate for every probe some value in
+/// the range satisfies.
+fn calendar_case(lo: u64, hi: u64, op: &str, probe: i64) -> i32 {
+    use snel_db::command::types::CompareOp;
+    use snel_db::engine::core::time::temporal_calendar_index::TemporalCalendarIndex;
+    use snel_db::engine::core::time::temporal_traits::FieldIndex;
+    let mut cal = TemporalCalendarIndex::new("created_at");
+    cal.add_zone_range(3, lo, hi);
+    let (cop, matches) = match op {
+        ">=" => (CompareOp::Gte, hi as i128 >= probe as i128),
+        ">" => (CompareOp::Gt, hi as i128 > probe as i128),
+        "<=" => (CompareOp::Lte, lo as i128 <= probe as i128),
+        "<" => (CompareOp::Lt, (lo as i128) < probe as i128),
+        "=" => (CompareOp::Eq, lo as i128 <= probe as i128 && probe as i128 <= hi as i128),
+        _ => return 2,
+    };
+    let zones = cal.zones_intersecting(cop, probe);
+    let kept = zones.contains(3);
+    println!("zone covers [{lo}, {hi}]; probe ts {op} {probe}: some value may match = {matches}, calendar keeps zone = {kept}");
+    if matches && !kept { 3 } else { 0 }
+}
+
 /// Validates the hand-built trie arrays of the Kani harness (kani/src/c08_trie.rs, included
 /// verbatim) against the real builder for every pair of 3-byte keys over a small alphabet.
 mod trie_shapes {
@@ -128,6 +150,7 @@ fn main() {
     let code = match args.get(1).map(|s| s.as_str()) {
         Some("parse") if args.len() >= 3 => parse_case(&args[2]),
         Some("triecheck") => triecheck(),
+        Some("calendar") if args.len() >= 6 => calendar_case(args[2].parse().unwrap(), args[3].parse().unwrap(), &args[4], args[5].parse().unwrap()),
         Some("stringcell") if args.len() >= 3 => stringcell(&args[2]),
         Some("surf") if args.len() >= 6 => surf_case(
             args[2].parse().unwrap(),
